@@ -33,11 +33,11 @@ PARAMS = {
         ("carbon_footprint_fabrication_per_storage_capacity", 160, "kg/TB"),
         ("power_per_storage_capacity", 1.3, "W/TB"),
         ("lifespan", 6, "year"),
-        ("idle_power", 0, "W"),
+        ("idle_power", 0.5, "W"),
         ("storage_capacity", 1, "TB"),
         ("data_replication_factor", 3, "dimensionless"),
         ("data_storage_duration", 5, "year"),
-        ("base_storage_need", 0, "TB"),
+        ("base_storage_need", 0.25, "TB"),
     ],
     "server": [
         ("carbon_footprint_fabrication", 600, "kg"),
@@ -49,8 +49,8 @@ PARAMS = {
         ("power_usage_effectiveness", 1.2, "dimensionless"),
         ("average_carbon_intensity", 100, "g/kWh"),
         ("server_utilization_rate", 0.9, "dimensionless"),
-        ("base_ram_consumption", 0, "GB"),
-        ("base_compute_consumption", 0, "cpu_core"),
+        ("base_ram_consumption", 2, "GB"),
+        ("base_compute_consumption", 1, "cpu_core"),
     ],
     "gpu_server": [
         ("gpu_power", 400, "W/gpu"),
